@@ -92,7 +92,7 @@ def run(ctx):
     root = common.scratch_dir('rules')
     sdir = common.scratch_dir('sess')
     for i in range(ctx.scale(12, 120)):
-        spec = small_ruleset(rng)
+        spec = small_ruleset(rng, rich=(i % 2 == 1))      # every other ruleset: Markov levels that span several lengths / IP levels
         d = common.write_ruleset(os.path.join(root, f"c12_{i % 5}"), spec)
         pcfg = common.load_grammar(d)
         units = ss.units_of(pcfg)
@@ -103,6 +103,31 @@ def run(ctx):
         ops += uops
         exp += ['ok'] * len(uops)
         nsteps = len(full) + 2 * len(units) + 3
+        if i % 2 == 1:
+            # deterministic part for the rich rulesets: q handled right before guess j of every Markov level (j = 0 and the middle), then
+            # a resumed session that nobody talks to: both sessions together print the whole stream
+            from props import C15 as _c15
+            import configparser as _cp
+            for ui in [k for k, u in enumerate(units) if u[0] == 'm' and len(u[2]) >= 2 and k != len(units) - 1]:
+                for j in sorted({0, len(units[ui][2]) // 2}):
+                    sfq = os.path.join(sdir, f"c12q_{i}_{ui}_{j}.sav")
+                    for ext in ('.sav', '.omn'):
+                        if os.path.exists(sfq[:-4] + ext):
+                            os.remove(sfq[:-4] + ext)
+                    witq = {'spec': spec, 'schedule': _c15.quit_schedule(units, ui, j), 'events': [('line', 'q', False)], 'past_time': None, 'then_resumed': True}
+                    try:
+                        q1 = ss.run_session(pcfg, sfq, new_cfg(), False, witq['schedule'], witq['events'])
+                        cfgq = _cp.ConfigParser()
+                        cfgq.read(sfq)
+                        q2 = ss.run_session(pcfg, sfq, cfgq, True, 'm' * (nsteps + 5), []) if q1['state'] == 'exited' else {'out': []}
+                    except Exception as e:
+                        viol.append({'property': 'C12', 'kind': 'session-raised', 'error': repr(e)[:200], 'witness': witq})
+                        continue
+                    cases += 1
+                    dist['quit_in_markov_then_resumed'] = dist.get('quit_in_markov_then_resumed', 0) + 1
+                    if q1['state'] == 'exited' and q1['out'] + q2['out'] != full:
+                        viol.append({'property': 'C12', 'kind': 'resumed-session-does-not-print-the-rest', 'first': len(q1['out']), 'resumed': len(q2['out']),
+                                     'total': len(full), 'witness': witq})
         for rep in range(ctx.scale(8, 25)):
             kind = rng.choice(['none', 'eof', 'err', 'chatter', 'q', 'q', 'q-fails', 'chatter+eof'])
             events = []
@@ -152,6 +177,21 @@ def run(ctx):
                 after = [l for u in units[pos:] for l in u[2]]
                 if r['out'] + rest + after != full:
                     viol.append({'property': 'C12', 'kind': 'quit-not-at-boundary-or-state-not-saved', 'pos': pos, 'opt': opt, 'witness': wit})
+                elif not (units[-1][0] == 'm' and pos >= len(units)):
+                    # ... and the files are good for what they promise: the session resumed from them (nobody types anything) prints
+                    # exactly the rest
+                    try:
+                        import configparser as _cp
+                        cfg2 = _cp.ConfigParser()
+                        cfg2.read(sf)
+                        r2 = ss.run_session(pcfg, sf, cfg2, True, 'm' * (nsteps + 5), [])
+                        cases += 1
+                        dist['resumed_after_quit'] = dist.get('resumed_after_quit', 0) + 1
+                        if r['out'] + r2['out'] != full:
+                            viol.append({'property': 'C12', 'kind': 'resumed-session-does-not-print-the-rest', 'first': len(r['out']), 'resumed': len(r2['out']),
+                                         'total': len(full), 'witness': wit})
+                    except Exception as e:
+                        viol.append({'property': 'C12', 'kind': 'session-raised', 'error': repr(e)[:200], 'witness': dict(wit, resumed=True)})
             # model
             pos, opt, omn = 0, False, None
             if r['state'] == 'exited':
@@ -233,6 +273,9 @@ def replay(ctx, payload):
     units = ss.units_of(pcfg)
     full = [l for u in units for l in u[2]]
     sf = os.path.join(common.scratch_dir('sess'), 'replay12.sav')
+    for ext in ('.sav', '.omn'):
+        if os.path.exists(sf[:-4] + ext):
+            os.remove(sf[:-4] + ext)
     ev = [tuple(e) for e in w['events']]
     r = ss.run_session(pcfg, sf, new_cfg(), False, w['schedule'], ev, past_time=w.get('past_time'))
     if r['stdout_extra']:
@@ -240,4 +283,13 @@ def replay(ctx, payload):
     has_q = any(e[0] == 'line' and e[1] == 'q' for e in ev)
     if r['out'] != full[:len(r['out'])] or (not has_q and r['out'] != full):
         out.append({'kind': 'stream', 'lines': len(r['out']), 'total': len(full)})
+    if r['state'] == 'exited':
+        # the files the quit left behind: a resumed session prints exactly the rest
+        import configparser as _cp
+        cfg2 = _cp.ConfigParser()
+        cfg2.read(sf)
+        r2 = ss.run_session(pcfg, sf, cfg2, True, 'm' * (len(full) + 2 * len(units) + 8), [])
+        pos = int(0)
+        if r['out'] + r2['out'] != full and not (units[-1][0] == 'm' and len(r['out']) > len(full) - len(units[-1][2])):
+            out.append({'kind': 'resumed-session-does-not-print-the-rest', 'first': len(r['out']), 'resumed': len(r2['out']), 'total': len(full)})
     return out
